@@ -227,10 +227,18 @@ def r3(ctx, R):
     if len(addn) != 1 or norm(addn[0].args[0]) != "node":
         R.bad(fi, fi.node, "assigned element is not added to the trace graph as `node`", stmt="add_node(node)")
     else:
-        if not q.dominated(fi, [stv], addn[0]):
-            R.bad(fi, addn[0], "graph node added before/without storing (a rejected None would leave a node)")
-        if not q.followed(fi, stv, [addn[0]], exits=[cfg.exit]):
+        # does a pre-check refuse None before anything is touched?  then _store_value cannot reject here
+        pre = [r_ for r_ in q.raises(fi, "NoneReturnedError")
+               if ("value is None", "T") in q.guards_of(fi, r_) and ("self.get_property('allow_none')", "F") in q.guards_of(fi, r_)
+               and not q.path_between(fi, cl, r_)]
+        R.slot("none_precheck", bool(pre))
+        if not pre and not q.dominated(fi, [stv], addn[0]):
+            R.bad(fi, addn[0], "graph node added before storing and the store can still reject None: a rejected "
+                               "assignment leaves a node without value")
+        if not (q.followed(fi, stv, [addn[0]], exits=[cfg.exit]) or q.dominated(fi, [addn[0]], stv)):
             R.bad(fi, stv, "a stored input does not get its graph node")
+        if not q.dominated(fi, [cl], addn[0]):
+            R.bad(fi, addn[0], "graph node added before the old element was cleared (clearing removes it again)")
     if len(marks) != 1 or [norm(a) for a in marks[0].args] != ["key"]:
         R.bad(fi, fi.node, "assigned element is not marked as input", stmt="input_keys.add(key)")
     else:
